@@ -41,6 +41,16 @@ CHECKS = {
         "assumptions": A_COMMON + A_STORE,
         "maxpaths": 3000000,
     },
+    "C01": {
+        "quick": [
+            {"name": LEDGER + "ZZ_C01_D1", "maporder": True, "native_repeat": 20, "reach": ["D1 end"], "bound": "two ledgers fed the same 1..3 updated items (symbolic values); EVERY permutation of every map iteration in SetFinality/Commit/refresh, independently per replica; with <=2 items also a second block with updates, a removal and a re-creation"},
+            {"name": LEDGER + "ZZ_C01_D3", "reach": ["D3 end"], "bound": "3 ledger keys with symbolic leading bytes: Less is a strict total order, sorting is input-order independent"},
+            {"name": NODE + "ZZ_C01_D2", "native_repeat": 20, "reach": ["D2 end"], "bound": "twin applications in different data directories; replica A iterates every Go map ascending, replica B descending or rotated; genesis (2 validators in power bands, 3 accounts), 2 empty blocks, block 3 with two transactions from the menu {delegation, transfer, unbonding} with votes, block 4 with a missed vote"},
+        ],
+        "bounds": "D1: all iteration orders for <=3 dirty keys; D2: two fixed alternative orders per map for one block with 2 transactions; wall clock and data directory differ between replicas by construction (the model store's root hash ignores the directory, time.Now is a stub that never reaches an output)",
+        "outside": "all permutations at application level; IAVL's own determinism (A-IAVL); encoding/json key order (A-CODEC); goroutine scheduling (none on the synchronous path: a `go` statement reached from an ABCI call makes the executor report 'unsupported'); contract execution",
+        "assumptions": A_COMMON + A_STORE + ["A-SIG", "A-HASH"],
+    },
     "C02": {
         "quick": [
             {"name": NODE + "ZZ_C02_V1", "reach": ["V1 end"] + OK_ALL, "bound": TXB + "; block with / without proposer; EndBlock"},
